@@ -273,6 +273,71 @@ pub fn check_jit_api(c: &JitApiCase) -> CheckResult {
     Ok(CaseInfo::new(compared >= 2 && (c.a.1 != c.b.1 || c.a.2 != c.b.2)).class_if(c.a.1 != c.b.1, "different-rounds").class_if(c.a.2.is_some() || c.b.2.is_some(), "pool-preset").class_if(c.a.2 == Some(0) || c.b.2 == Some(0), "zero-pool"))
 }
 
+/// states that only `Deserialize` can produce: the serde image of a generator with one numeric
+/// field of the *state* set to 0 or to its maximum, or all of them set to 0 (read position fields
+/// `index` / `half_used` untouched). Such a generator is at the same public read position as the
+/// one the image was taken from, so the two must print the same text.
+#[derive(Clone, Debug, Serialize, Deserialize)]
+pub struct CraftCase {
+    pub spec: GenSpec,
+    pub pre: usize,
+    pub field: usize,
+    /// 0 = one field to 0, 1 = one field to its maximum, 2 = every state field to 0
+    pub mode: u8,
+}
+
+pub fn check_crafted(c: &CraftCase) -> CheckResult {
+    let ty = c.spec.ty();
+    let info = ty.info();
+    let mut g = c.spec.build();
+    for _ in 0..c.pre {
+        g.next_native();
+    }
+    let js = match g.json() {
+        Some(j) => j,
+        None => return Ok(CaseInfo::new(false).class("no-serde")),
+    };
+    let mut v: serde_json::Value = serde_json::from_str(&js).map_err(|e| Fail::inconclusive("C17:json", e.to_string()))?;
+    fn walk<'a>(v: &'a mut serde_json::Value, key: &str, out: &mut Vec<&'a mut serde_json::Value>) {
+        match v {
+            serde_json::Value::Number(_) if key != "index" && key != "half_used" => out.push(v),
+            serde_json::Value::Array(a) => a.iter_mut().for_each(|x| walk(x, key, out)),
+            serde_json::Value::Object(m) => {
+                for (k, x) in m.iter_mut() {
+                    let k = k.clone();
+                    walk(x, &k, out);
+                }
+            }
+            _ => {}
+        }
+    }
+    let mut leaves = Vec::new();
+    walk(&mut v, "", &mut leaves);
+    if leaves.is_empty() {
+        return Ok(CaseInfo::new(false).class("no-numeric-leaves"));
+    }
+    let wide = info.word == 64;
+    let n = leaves.len();
+    match c.mode % 3 {
+        0 => *leaves[c.field % n] = serde_json::Value::from(0u64),
+        1 => *leaves[c.field % n] = serde_json::Value::from(if wide { u64::MAX } else { u32::MAX as u64 }),
+        _ => leaves.iter_mut().for_each(|l| **l = serde_json::Value::from(0u64)),
+    }
+    let r = match adapter::from_json(ty, &v.to_string()) {
+        Ok(r) => r,
+        Err(_) => return Ok(CaseInfo::new(false).class("rejected-by-deserialize")),
+    };
+    if g.debug() != r.debug() || g.debug_alt() != r.debug_alt() {
+        let (e, a) = if g.debug() != r.debug() { (g.debug(), r.debug()) } else { (g.debug_alt(), r.debug_alt()) };
+        return Err(Fail::new(format!("C17:depends-on-state:{}", ty.name()), "Debug text differs between a generator and one restored from its serde image with state fields overwritten (same read position, other state)").exp_act(e, a));
+    }
+    Ok(CaseInfo::new(true).class(ty.name()).class(match c.mode % 3 {
+        0 => "one-field-zero",
+        1 => "one-field-max",
+        _ => "all-state-fields-zero",
+    }))
+}
+
 pub fn check_core(c: &CoreCase) -> CheckResult {
     macro_rules! go {
         ($Core:ty, $name:expr) => {{
@@ -338,6 +403,15 @@ pub fn def(ctx: &Ctx) -> PropDef {
             check_pair,
         ));
     }
+    for ty in [Ty::XorShift, Ty::Isaac, Ty::Isaac64] {
+        let info = ty.info();
+        subs.push(PSub::boxed(
+            format!("crafted-states/{}", ty.name()),
+            t.pick(400, 40_000),
+            move || (gens::det_spec(ty, true), gens::pre_advance(&info), 0usize..4096, 0u8..3).prop_map(|(spec, pre, field, mode)| CraftCase { spec, pre, field, mode }).boxed(),
+            check_crafted,
+        ));
+    }
     subs.push(PSub::boxed(
         "jitter-api-pairs",
         t.pick(1500, 150_000),
@@ -359,7 +433,7 @@ pub fn def(ctx: &Ctx) -> PropDef {
     ));
     PropDef {
         id: "C17",
-        rule: "cases = pairs of generators of the same state-hiding type (XorShiftRng, Hc128Rng, IsaacRng, Isaac64Rng, scripted JitterRng; cores Hc128Core, IsaacCore, Isaac64Core) built from two generated seeds / timers and driven by the same generated history; after every operation {:?} and {:#?} of the two must be byte-identical (same history => same public read position), the text must also be identical between two moments of one history at which the public read position (derived from the calls made) is the same, and constant over time for the cores, XorShiftRng and JitterRng; jitter-api-pairs: two JitterRng with different timers, round counts (incl. the initial one), pool contents (preset through the hook: zero, all ones, single bits, half words) and different histories over the whole public API (output calls, timer_stats, set_rounds, test_timer, clones) must print identical text whenever they agree on the only public read position JitterRng has (a half pending or not), and the text must not contain the pool (histories reach beyond 64 blocks / 1024 words of HC-128), and no decimal or hex token of the text may equal a state word, an upcoming buffered word or one of the last outputs if that word is >= 2^20 (small numbers legitimately appear as index / result_len). The text itself is not pinned. Non-trivial = the two seeds differ and >= 1 operation was applied; distinct by hash of the case.".into(),
+        rule: "cases = pairs of generators of the same state-hiding type (XorShiftRng, Hc128Rng, IsaacRng, Isaac64Rng, scripted JitterRng; cores Hc128Core, IsaacCore, Isaac64Core) built from two generated seeds / timers and driven by the same generated history; after every operation {:?} and {:#?} of the two must be byte-identical (same history => same public read position), the text must also be identical between two moments of one history at which the public read position (derived from the calls made) is the same, and constant over time for the cores, XorShiftRng and JitterRng; crafted-states: for the state-hiding types with serde (XorShiftRng, IsaacRng, Isaac64Rng) a generator restored from its own serde image with one state field set to 0 or its maximum, or all state fields set to 0 (read position fields untouched), must print the same text as the original; jitter-api-pairs: two JitterRng with different timers, round counts (incl. the initial one), pool contents (preset through the hook: zero, all ones, single bits, half words) and different histories over the whole public API (output calls, timer_stats, set_rounds, test_timer, clones) must print identical text whenever they agree on the only public read position JitterRng has (a half pending or not), and the text must not contain the pool (histories reach beyond 64 blocks / 1024 words of HC-128), and no decimal or hex token of the text may equal a state word, an upcoming buffered word or one of the last outputs if that word is >= 2^20 (small numbers legitimately appear as index / result_len). The text itself is not pinned. Non-trivial = the two seeds differ and >= 1 operation was applied; distinct by hash of the case.".into(),
         explanation: None,
         assumptions: vec![
             "buffered words are observed as the upcoming outputs of a clone; XorShiftRng state through its validated serde image".into(),
